@@ -89,7 +89,7 @@ func Load(dir string, overlay map[string][]byte, patterns []string) (*Program, e
 	P.nopFunc = &nativeFunc{name: "nop", f: func(i *interpreter, args []value) value { return nil }}
 	P.hooks = baseHooks()
 	P.globalInit = map[string]func(i *interpreter, cell *value){}
-	P.initAllow = map[string]bool{}
+	P.initAllow = map[string]bool{"encoding/base64": true, "encoding/pem": true, "encoding/hex": true}
 	P.parkForever = map[string]bool{}
 	addIntrinsics(P)
 	addBadgerModel(P)
